@@ -186,7 +186,7 @@ structure MSt where
   msgs : List MMsg := []
   voided : Bool := false       -- a delivery later than d, or a forged message: the theorems' hypotheses do not hold
   lastChange : Int := 0
-  idsUnique : Bool := true
+  idsUnique : Bool := true      -- ids pairwise different and comma-free (the theorems' hypotheses on ids)
   seen : List String := []     -- signatures already reported in this case (each is reported once)
 
 def hasComma (b : Bytes) : Bool := b.contains comma
@@ -273,7 +273,8 @@ def mStep (m : MSt) (op : List String) (exts : List (List String)) (obs : Option
     -- codec_roundtrip: what was marshalled must decode to the same action, address and id
     let toks := (obs.getD "").splitOn " "
     let good := kv toks "ok" == some "1" && kv toks "act" == some act && kv toks "addr" == some addr && kv toks "id" == some id
-    if good then (m, []) else
+    -- the theorem's hypothesis: the id has no comma (ids are generated as 8 hex digits)
+    if good || hasComma (dec id) then (m, []) else
       let c := hasComma (dec addr)
       (m, [{ prop := "C18", sig := if c then "C18:codec-roundtrip:comma-in-address" else "C18:codec-roundtrip:comma-free-address",
              what := s!"{act} address={addr} id={id} decodes as {obs.getD "-"}" }])
@@ -343,7 +344,7 @@ def mInit (args : List String) : MSt :=
   let ids := headerNodes args
   { ttl := num "ttl", refresh := num "refresh", jit := num "jit", gap := num "refresh" + num "jit", d := num "d",
     nodes := ids.map fun (i, id) => { idx := i, id := id },
-    idsUnique := (ids.map (·.2)).eraseDups.length == ids.length }
+    idsUnique := (ids.map (·.2)).eraseDups.length == ids.length && ids.all fun p => !hasComma p.2 }
 
 /-- report each signature once per case (the first observation that shows it) -/
 def mStepOnce (m : MSt) (op : List String) (exts : List (List String)) (obs : Option String) : MSt × List Fail :=
